@@ -350,6 +350,20 @@ impl Ord for Value {
             return res;
         }
 
+        // Maps, and arrays holding values `partial_cmp` can't compare, still need an order that
+        // is transitive and only answers `Equal` for equal values (`unique`, `BTreeSet`, sorting).
+        match (&self.inner, &other.inner) {
+            (ValueInner::Array(a), ValueInner::Array(b)) => return a.iter().cmp(b.iter()),
+            (ValueInner::Map(a), ValueInner::Map(b)) => {
+                let mut a: Vec<_> = a.iter().collect();
+                let mut b: Vec<_> = b.iter().collect();
+                a.sort_by(|x, y| x.0.cmp(y.0));
+                b.sort_by(|x, y| x.0.cmp(y.0));
+                return a.cmp(&b);
+            }
+            _ => {}
+        }
+
         // Fallback: order by type for consistent ordering of incompatible types.
         // It's nonsensical but this way with the sort filter the None/undefined show up at the end
         fn type_order(v: &ValueInner) -> u8 {
